@@ -132,9 +132,14 @@ Definition isnil {A} (l : list A) : bool := match l with [] => true | _ => false
    uses the compiled object.  A missing value fails a regular-expression
    test; an empty value is matched like any other (fixes/C19-11: the code
    used to say `if not value: return False`, see eval_atom_emptyfalse).     *)
+(* EqExpr.filter after fixes/C19-13: a missing left-hand side equals nothing (before: var1.get == var2.get, and
+   None == None made `model = bm25` -- quotes forgotten -- select every job without a `model` tag) *)
+Definition eq_present (a b : option str) : bool :=
+  match a with Some s => ostr_eqb (Some s) b | None => false end.
+
 Definition eval_atom (a : atom) (e : env) : bool :=
   match a with
-  | AEq v o => ostr_eqb (get v e) (oget o e)
+  | AEq v o => eq_present (get v e) (oget o e)
   | AIn v l => match get v e with Some s => mem s l | None => false end
   | ANotIn v l => negb (match get v e with Some s => mem s l | None => false end)
   | ARegex v p => match get v e with
@@ -222,7 +227,7 @@ Definition member (v : var) (l : list str) (e : env) : Prop :=
 
 Definition meaning_atom (a : atom) (e : env) : Prop :=
   match a with
-  | AEq v o => get v e = oget o e
+  | AEq v o => exists s, get v e = Some s /\ oget o e = Some s
   | AIn v l => member v l e
   | ANotIn v l => ~ member v l e
   | ARegex v p => exists s, get v e = Some s /\ matches p s
